@@ -44,6 +44,7 @@ struct HttpReader {
     std::string buf;
     size_t consumed = 0;
     std::vector<HttpMsg> done;
+    int interim = 0;                // 1xx responses seen (not in `done`)
     bool broken = false;
     std::string broken_why;
     void feed(const char* data, size_t len);
